@@ -234,6 +234,42 @@ def check_tree(run, rng, tree, engine: str, case_id: Any) -> None:
                 run.violation(f'{label} -> parse({how}) did not reproduce the tree: {err or diff}',
                               witness={'text': text, 'diff': diff, 'error': err}, case=case, engine=engine,
                               key=classify(tree, diff, err))
+    # history: the tree is edited in place after it has been serialised (every renaming / re-valuing method), then
+    # serialised and parsed again - the text must describe the tree as it is NOW
+    nodes = [n for n in kv.iter_tree(blocks=True)] if kv.has_children() else []
+    edited = 0
+    for node in rng.sample(nodes, min(len(nodes), 3)):
+        new_name = rand_text(rng, 8, allow_newlines=False, hostile=0.5)
+        how = rng.randrange(4)
+        try:
+            if how == 0:
+                node.edit(name=new_name)
+            elif how == 1:
+                node.real_name = new_name
+            elif how == 2:
+                node.name = new_name
+            elif not node.has_children():
+                node.edit(value=rand_text(rng, 8, hostile=0.5))
+            else:
+                node.edit(name=new_name)
+            edited += 1
+        except Exception as exc:
+            run.violation(f'editing a node of a serialised tree raised {exc!r}', case=case, engine=engine, key='edit-raises')
+            return
+    if edited:
+        now = snapshot(kv)
+        try:
+            text2 = kv.serialise()
+            back = snapshot(Keyvalues.parse(text2))
+        except Exception as exc:
+            run.violation(f'serialise/parse after in-place edits raised {exc!r}', case=case, engine=engine, key='roundtrip-after-edit')
+            return
+        want2 = now if tree[0] is None else (None, [now])
+        d2 = first_diff(want2, back)
+        run.count('roundtrips_after_edit')
+        if d2 is not None:
+            run.violation(f'after in-place edits of an already serialised tree the text does not describe the tree: {d2}',
+                          witness={'text': text2, 'diff': d2}, case=case, engine=engine, key='roundtrip-after-edit')
     blk, esc = stats(tree)
     if has_block_with_escape(tree):
         run.count('trees_with_escape_char_in_block_name')
@@ -269,7 +305,7 @@ def main(run, shard=(0, 1)) -> None:
             check_tree(run, sub_rng(run.seed, 'fixed', j), tree, 'fixed', f'fixed{j}')
     probe.report(run)
     probe.check_reached(run)
-    run.require('serialise_calls', 'parse_calls', 'real_file_deliveries', 'trees_with_escape_char_in_block_name')
+    run.require('serialise_calls', 'parse_calls', 'real_file_deliveries', 'roundtrips_after_edit', 'trees_with_escape_char_in_block_name')
 
 
 def replay(run, data) -> None:
